@@ -1068,7 +1068,7 @@ func c20Record(c *c20Case, f c20Facts) {
 }
 
 func TestCheckStatusControllers(t *testing.T) {
-	kit.Run(t, kit.Budget{Quick: 3200, Thorough: 80000}, func(t *rapid.T) {
+	kit.Run(t, kit.Budget{Quick: 3200, Thorough: 60000}, func(t *rapid.T) {
 		c := c20GenCase(t)
 		sig, msg, f, trace := c20Judge(c)
 		if sig == "harness-error" {
